@@ -340,6 +340,38 @@ theorem applyEdit_local {h : Heap} {root l : Loc} (wf : WF h) (hroot : root < h.
           simp at he
           subst he
           exact absurd hm (immSlots_norefs _ k' c)
+  | copyArray k src =>
+    cases ho : h[l]? with
+    | none => simp only [applyEdit, ho]; exact stepLocal_refl wf
+    | some o =>
+      cases hr : (listSrcLoc h root src).bind (fun sl => h[sl]?) with
+      | none => simp only [applyEdit, ho, hr]; exact stepLocal_refl wf
+      | some so =>
+        simp only [applyEdit, ho, hr]
+        refine stepLocal_of_write (ext := [Obj.mk .array (immSlots so.slots)]) wf hroot ⟨rl, ho, ?_, ?_⟩
+        · intro k' c hm
+          rcases mem_slotSet hm with h1 | h1
+          · exact Or.inl ⟨k', h1.1⟩
+          · have : c = h.length := by
+              have := h1.2; injection this
+            subst this
+            exact Or.inr ⟨Nat.le_refl _, by simp⟩
+        · intro e he k' c hm
+          simp at he
+          subst he
+          exact absurd hm (immSlots_norefs _ k' c)
+  | copyCells src =>
+    cases ho : h[l]? with
+    | none => simp only [applyEdit, ho]; exact stepLocal_refl wf
+    | some o =>
+      cases hr : (listSrcLoc h root src).bind (fun sl => h[sl]?) with
+      | none => simp only [applyEdit, ho, hr]; exact stepLocal_refl wf
+      | some so =>
+        simp only [applyEdit, ho, hr]
+        have := stepLocal_of_write (ext := []) (o' := withSlots o (immSlots so.slots)) wf hroot ⟨rl, ho, ?_, by simp⟩
+        · simpa using this
+        · intro k' c hm
+          exact absurd hm (immSlots_norefs _ k' c)
 
 theorem applyStep_local {h : Heap} {root : Loc} (wf : WF h) (hroot : root < h.length) (s : Step) :
     StepLocal h (applyStep h root s) root := by
